@@ -251,6 +251,94 @@ func watermarkWindowGroup(c *Ctx, rule string) {
 		}
 	})
 	c.Decide(nb, rule, key(fn, "newBase=doneUntil+1"), fn.Pos(), 1, "the new window starts right above doneUntil", "the rebuilt window no longer starts at doneUntil+1")
+
+	// the rebuilt window contains the index that forced the rebuild: the size-doubling loop
+	// stops only once size >= index - newBase + 1 (affine normal form of its exit condition)
+	var baseVal ssa.Value
+	for _, st := range fieldStoresIn(fn, false, "utils.watermarkWindow", "base") {
+		if sv, ok := st.(*ssa.Store); ok {
+			baseVal = Unwrap(sv.Val)
+		}
+	}
+	decided := false
+	for _, b := range fn.Blocks {
+		ifi := ifOf(b)
+		if ifi == nil {
+			continue
+		}
+		bo, ok := ifi.Cond.(*ssa.BinOp)
+		if !ok {
+			continue
+		}
+		isSize := func(v ssa.Value) bool {
+			ph, ok := Unwrap(v).(*ssa.Phi)
+			if !ok {
+				return false
+			}
+			// the test must be the header of the doubling loop itself: the phi lives in this
+			// block and the shift in the successor taken while the loop continues
+			if ph.Block() != b {
+				return false
+			}
+			for _, e := range ph.Edges {
+				if sh, ok := e.(*ssa.BinOp); ok && sh.Op == token.SHL && sh.Block() == b.Succs[0] {
+					return true
+				}
+			}
+			return false
+		}
+		var bound ssa.Value
+		extra := int64(0)
+		switch {
+		case isSize(bo.X) && bo.Op == token.LSS:
+			bound = bo.Y
+		case isSize(bo.X) && bo.Op == token.LEQ:
+			bound, extra = bo.Y, 1
+		case isSize(bo.Y) && bo.Op == token.GTR:
+			bound = bo.X
+		case isSize(bo.Y) && bo.Op == token.GEQ:
+			bound, extra = bo.X, 1
+		default:
+			continue
+		}
+		decided = true
+		af := AffineOf(bound, baseVal)
+		af.K += extra
+		var plus, minus ssa.Value
+		shape := len(af.Terms) == 2
+		for v, k := range af.Terms {
+			switch k {
+			case 1:
+				plus = v
+			case -1:
+				minus = v
+			default:
+				shape = false
+			}
+		}
+		okIdx := false
+		if plus != nil {
+			switch x := plus.(type) {
+			case *ssa.Parameter:
+				okIdx = x.Name() == "index"
+			case *ssa.Phi:
+				okIdx = true
+				hasParam := false
+				for _, e := range x.Edges {
+					e = Unwrap(e)
+					if p, ok := e.(*ssa.Parameter); ok && p.Name() == "index" {
+						hasParam = true
+					} else if e != baseVal {
+						okIdx = false
+					}
+				}
+				okIdx = okIdx && hasParam
+			}
+		}
+		good := shape && okIdx && minus != nil && minus == baseVal && af.K >= 1
+		c.Decide(good, rule, key(fn, "size>=index-newBase+1"), ifi.Cond.Pos(), 3, "the rebuilt window is large enough to hold the index that forced the rebuild", fmt.Sprintf("the size-doubling loop stops at size >= (index - newBase) %+d: the rebuilt window can end short of the index that forced the rebuild, addIndex then drops its pending count and doneUntil runs past an unfinished index", af.K))
+	}
+	c.Decide(decided, rule, key(fn, "has:size-doubling-loop"), fn.Pos(), 1, "window growth loop found", "rebuildWindowLocked has no recognisable size-doubling loop bounded by the forcing index")
 }
 
 func valueOf(in ssa.Instruction) ssa.Value {
@@ -274,4 +362,109 @@ func isDonePlusOne(v ssa.Value) bool {
 	k, isK := ConstInt(bo.Y)
 	call, isC := bo.X.(*ssa.Call)
 	return isK && k == 1 && isC && Named("utils.(*WaterMark).DoneUntil")(call.Common())
+}
+
+// headPersistGroup: the value-log head recorded in the manifest is what reconcileManifest
+// uses after a crash to tell tracked segments from orphans; it must be persisted whenever
+// the head moves to another file.
+func headPersistGroup(c *Ctx, rule string) {
+	c.Rule(rule, "DB.shouldPersistHead answers true whenever the new head's Fid differs from the last logged one (every return reachable from the Fid-differs edge is the constant true); DB.updateHead logs the head (LSM.LogValueLogHead) on the branch where shouldPersistHead is true with no further condition, and records lastLoggedHeads only after LogValueLogHead returned nil")
+	if fn := c.Fn("", "DB.shouldPersistHead"); fn != nil {
+		n := 0
+		for _, b := range fn.Blocks {
+			ifi := ifOf(b)
+			if ifi == nil {
+				continue
+			}
+			bo, ok := ifi.Cond.(*ssa.BinOp)
+			if !ok || (bo.Op != token.NEQ && bo.Op != token.EQL) {
+				continue
+			}
+			if !isFieldLoad(bo.X, "kv.ValuePtr", "Fid") || !isFieldLoad(bo.Y, "kv.ValuePtr", "Fid") {
+				continue
+			}
+			n++
+			differ := b.Succs[0]
+			if bo.Op == token.EQL {
+				differ = b.Succs[1]
+			}
+			allTrue, rets := true, 0
+			seen := map[*ssa.BasicBlock]bool{}
+			var walk func(x *ssa.BasicBlock)
+			walk = func(x *ssa.BasicBlock) {
+				if seen[x] {
+					return
+				}
+				seen[x] = true
+				if len(x.Instrs) > 0 {
+					if r, ok := x.Instrs[len(x.Instrs)-1].(*ssa.Return); ok {
+						rets++
+						v := RetVal(r, 0)
+						if k, ok := v.(*ssa.Const); !ok || k.Value == nil || k.Value.String() != "true" {
+							allTrue = false
+						}
+					}
+				}
+				for _, s := range x.Succs {
+					walk(s)
+				}
+			}
+			walk(differ)
+			c.Decide(allTrue && rets > 0, rule, key(fn, fmt.Sprintf("Fid-differs[%d]=>true", n)), ifi.Cond.Pos(), len(seen)+1, "a head in another file is always persisted", "shouldPersistHead can answer false although the head moved to another value-log file: the manifest keeps pointing at the old file and reconcileManifest treats the new segment as an orphan after a crash")
+		}
+		c.Decide(n >= 1, rule, key(fn, "compares:next.Fid,last.Fid"), fn.Pos(), 1, "the file id of the new head is compared with the last logged one", "shouldPersistHead no longer compares the head's file id with the last logged head: a rotation to a new value-log file is not guaranteed to be persisted")
+	}
+	if fn := c.Fn("", "DB.updateHead"); fn != nil {
+		sp := need(c, rule, fn, false, "shouldPersistHead", Named("NoKV.(*DB).shouldPersistHead"), 1)
+		lg := need(c, rule, fn, false, "LogValueLogHead", Named("lsm.(*LSM).LogValueLogHead"), 1)
+		for i, l := range lg {
+			good := false
+			for _, s := range sp {
+				call, _ := s.(*ssa.Call)
+				if call == nil {
+					continue
+				}
+				ifi := ifOf(s.Block())
+				if ifi == nil || Unwrap(ifi.Cond) != ssa.Value(call) {
+					// `if !x` is compiled as If(x) with swapped successors or as UnOp NOT
+					if u, ok := ifi.Cond.(*ssa.UnOp); !ok || u.Op != token.NOT || u.X != ssa.Value(call) {
+						continue
+					}
+					// negated: persist edge is the false successor
+					if straightTo(s.Block().Succs[1], l.Block()) {
+						good = true
+					}
+					continue
+				}
+				if straightTo(s.Block().Succs[0], l.Block()) {
+					good = true
+				}
+			}
+			c.Decide(good, rule, key(fn, fmt.Sprintf("LogValueLogHead[%d]<=shouldPersistHead", i+1)), l.Pos(), 2, "logged exactly when shouldPersistHead says so", "between shouldPersistHead()==true and LogValueLogHead there is another condition (or the call is not on the true branch)")
+		}
+		n := 0
+		AllInstrs(fn, false, func(in ssa.Instruction) {
+			mu, ok := in.(*ssa.MapUpdate)
+			if !ok || !isFieldLoad(mu.Map, "NoKV.DB", "lastLoggedHeads") {
+				return
+			}
+			n++
+			succOK(c, rule, key(fn, fmt.Sprintf("lastLoggedHeads-update[%d]<-ok(LogValueLogHead)", n)), fn, lg, "LogValueLogHead", mu, "the lastLoggedHeads update")
+		})
+		c.Decide(n >= 1, rule, key(fn, "has:lastLoggedHeads-update"), fn.Pos(), 1, "last logged head is tracked", "updateHead no longer records the last logged head")
+	}
+}
+
+// straightTo: to is reached from from through blocks with a single successor (no further branch).
+func straightTo(from, to *ssa.BasicBlock) bool {
+	for i := 0; i < 8; i++ {
+		if from == to {
+			return true
+		}
+		if len(from.Succs) != 1 {
+			return false
+		}
+		from = from.Succs[0]
+	}
+	return false
 }
